@@ -374,6 +374,14 @@ _POOL = None
 NPROC = max(1, min(16, (os.cpu_count() or 2) - 1))
 
 
+def ensure_pool():
+    """create the worker pool now (workers are forked from the current state of this process)"""
+    global _POOL
+    if _POOL is None and NPROC >= 2 and not os.environ.get('VERIF_SERIAL'):
+        import multiprocessing
+        _POOL = multiprocessing.get_context('fork').Pool(NPROC)
+
+
 def pmap(fn, items, threshold=800):
     """map a stateless module-level function over many items on all cores (fork pool; the order of
     the results is the order of the items); small batches run in-process"""
